@@ -763,6 +763,34 @@ func c17Directed(c *core.Ctx) bool {
 			return false
 		}
 	}
+	// (g) Default obeys last-call-wins also when the last call takes the default away again
+	for _, mode := range []string{"Parse", "Validate"} {
+		sch := z.Slice(z.String()).Default([]string{"a", "b"}).Default(nil).Required()
+		opt := z.Slice(z.String()).Default([]string{"a", "b"}).Default(nil)
+		var d1, d2 []string
+		var m1, m2 z.ZogIssueMap
+		if mode == "Parse" {
+			m1, m2 = sch.Parse(nil, &d1), opt.Parse(nil, &d2)
+		} else {
+			m1, m2 = sch.Validate(&d1), opt.Validate(&d2)
+		}
+		c.Eval(2)
+		if len(m1["$root"]) != 1 || m1["$root"][0].Code != "required" || len(m2) != 0 || len(d1) != 0 || len(d2) != 0 {
+			c.Violation("last-call-wins|Default(list).Default(nil)", map[string]any{"mode": mode, "Slice(String()).Default([a b]).Default(nil).Required()": fmt.Sprint(d1, z.Issues.SanitizeMap(m1)), "the same without Required": fmt.Sprint(d2, z.Issues.SanitizeMap(m2)), "want": "a required issue / nothing; no default applied"})
+			return false
+		}
+	}
+	// (h) a Params map given to one test stays what the application made it, and reaches no other test
+	shared := map[string]any{"unit": "kg"}
+	var nn int
+	z.Int().OneOf([]int{1, 2, 3}, z.Params(shared)).Parse(9, &nn)
+	z.String().OneOf([]string{"a"}, z.Params(shared)).Parse("zz", &sv)
+	lp := z.Int().LT(5, z.Params(shared)).Parse(9, &nn)
+	c.Eval(3)
+	if fmt.Sprint(shared) != "map[unit:kg]" || len(lp) != 1 || fmt.Sprint(lp[0].Params) != "map[unit:kg]" {
+		c.Violation("test-options-leak|shared-params-map", map[string]any{"schema": "m := map{unit: kg}; Int().OneOf([1 2 3], Params(m)); String().OneOf([a], Params(m)); Int().LT(5, Params(m))", "the_applications_map_now": fmt.Sprint(shared), "params_of_the_LT_issue": fmt.Sprint(lp[0].Params), "want": "map[unit:kg]"})
+		return false
+	}
 	c.Count("directed_builder_scenarios", 1)
 	return true
 }
